@@ -5,8 +5,8 @@ import asmcheck
 
 def run(tier):
     chk = Check('C03', tier)
-    if not chk.prove():
-        chk.violation('proof obligations of props/C03.v no longer check', chk.broken_summary(), found_input=False)
+    asmcheck.prove_codec(chk)
+    ntie = asmcheck.codec_tie(chk)
     ctx = asmcheck.Ctx(chk, tier)
     canon = ctx.canonical()
     res = ctx.asm([('i', x['intel']) for x in ctx.base])
@@ -46,6 +46,7 @@ def run(tier):
             note(asmcheck.klass('rt:candidate-not-fixpoint', x), c, 'candidate %s of asm(%r) renders as %r, whose candidates %s do not contain it' % (c, line, it, r[:6]))
     chk.cov['evaluations'] = len(ctx.base) + len(cl) + len(again); chk.cov['accepted_lines'] = nacc; chk.cov['canonical_strings'] = sum(canon)
     chk.cov['candidates'] = len(cl); chk.cov['distinct_nontrivial'] = nacc; chk.cov['traces_validated_against_impl'] = len(ctx.base) + len(again)
+    chk.cov['codec_correspondence_cases'] = ntie
     asmcheck.report(chk, bad)
     chk.cov['rule'] = ('Intel renderings of the usable base strings (lift catalogue + fixed sample of the decoder control space on which the library decoder and objdump agree, no superfluous prefix) are assembled; '
                        'canonical strings (GNU as on objdump text reproduces them) must be among their candidates; every candidate must decode at full length and be among the candidates of its own rendering. Non-trivial = accepted line')
